@@ -57,6 +57,10 @@ func Emit(v interface{}) {
 	fmt.Printf("RESULT %s\n", b)
 }
 
+// OnDeath, when set, is told about a worker that died without a result (with the tail of its
+// stderr) instead of the run ending as a tool failure.
+var OnDeath func(i int, tail string)
+
 // Run starts n workers (at most par at a time) and decodes their results into out[i].
 func Run(n, par int, extraEnv []string, decode func(i int, raw []byte) error) {
 	self, _ := os.Executable()
@@ -73,7 +77,8 @@ func Run(n, par int, extraEnv []string, decode func(i int, raw []byte) error) {
 			// address-space limit: a runaway allocation must kill the worker, not the sandbox
 			cmd := exec.Command("bash", "-c", fmt.Sprintf("ulimit -v %d; exec \"$0\" \"$@\"", MemLimitKB), self, "--shard", fmt.Sprintf("%d/%d", i, n))
 			cmd.Env = append(os.Environ(), extraEnv...)
-			cmd.Stderr = os.Stderr
+			var errb tailBuf
+			cmd.Stderr = &errb
 			out, err := cmd.StdoutPipe()
 			if err != nil {
 				ev.Tool("%v", err)
@@ -96,7 +101,12 @@ func Run(n, par int, extraEnv []string, decode func(i int, raw []byte) error) {
 			}
 			if err := cmd.Wait(); err != nil || !got {
 				mu.Lock()
-				fail = fmt.Sprintf("worker %d/%d failed: %v", i, n, err)
+				if OnDeath != nil {
+					OnDeath(i, errb.String())
+				} else {
+					os.Stderr.WriteString(errb.String())
+					fail = fmt.Sprintf("worker %d/%d failed: %v", i, n, err)
+				}
 				mu.Unlock()
 			}
 		}(i)
@@ -106,3 +116,18 @@ func Run(n, par int, extraEnv []string, decode func(i int, raw []byte) error) {
 		ev.Tool("%s", fail)
 	}
 }
+
+// tailBuf keeps the first 1500 bytes written to it.
+type tailBuf struct{ b []byte }
+
+func (t *tailBuf) Write(p []byte) (int, error) {
+	if len(t.b) < 1500 {
+		n := 1500 - len(t.b)
+		if n > len(p) {
+			n = len(p)
+		}
+		t.b = append(t.b, p[:n]...)
+	}
+	return len(p), nil
+}
+func (t *tailBuf) String() string { return string(t.b) }
